@@ -11,6 +11,8 @@ def cnt (p : Ev → Bool) (σ : SM) : Nat := (σ.trace.filter p).length
 /-- `p` is false on everything the model logs except (possibly) calls of state functions -/
 structure OnlyCalls (p : Ev → Bool) (w : Nat) : Prop where
   reqStart : p .reqStart = false
+  reqStop : p .reqStop = false
+  reqDone : ∀ b, p (.reqDone b) = false
   post : ∀ r, p (.post r) = false
   take : p .take = false
   cycleBegin : p .cycleBegin = false
@@ -32,11 +34,11 @@ def isRaised : Ev → Bool
   | _ => false
 
 theorem onlyCalls_isCall : OnlyCalls isCall 1 :=
-  ⟨rfl, fun _ => rfl, rfl, rfl, fun _ _ => rfl, fun _ => rfl, fun _ _ => rfl, fun _ => rfl, fun _ => rfl,
+  ⟨rfl, rfl, fun _ => rfl, fun _ => rfl, rfl, rfl, fun _ _ => rfl, fun _ => rfl, fun _ _ => rfl, fun _ => rfl, fun _ => rfl,
    fun _ _ _ => rfl, fun _ => rfl, fun _ _ => by simp [isCall]⟩
 
 theorem onlyCalls_isRaised : OnlyCalls isRaised 0 :=
-  ⟨rfl, fun _ => rfl, rfl, rfl, fun _ _ => rfl, fun _ => rfl, fun _ _ => rfl, fun _ => rfl, fun _ => rfl,
+  ⟨rfl, rfl, fun _ => rfl, fun _ => rfl, rfl, rfl, fun _ _ => rfl, fun _ => rfl, fun _ _ => rfl, fun _ => rfl, fun _ => rfl,
    fun _ _ _ => rfl, fun _ => rfl, fun _ _ => by simp [isRaised]⟩
 
 variable {p : Ev → Bool} {w : Nat}
@@ -51,18 +53,21 @@ theorem cnt_post (hp : OnlyCalls p w) (σ : SM) (r : Req) : cnt p (post σ r) = 
 theorem cnt_startMachine (hp : OnlyCalls p w) (cfg : Cfg) (σ : SM) (s cl kw ovr) :
     cnt p (startMachine cfg σ s cl kw ovr) = cnt p σ := by
   unfold startMachine startMachineB startMachineA
-  simp only [cnt_log, hp.status, cnt_post hp]
-  show cnt p (σ.log .reqStart) + _ = _
+  simp only [cnt_log, hp.status, hp.reqDone, cnt_post hp]
+  show cnt p (σ.log .reqStart) + _ + _ = _
   simp [hp.reqStart]
 
 theorem cnt_stopMachine (hp : OnlyCalls p w) (cfg : Cfg) (σ : SM) (st) :
     cnt p (stopMachine cfg σ st) = cnt p σ := by
   unfold stopMachine
+  simp only
   split
-  · rfl
-  · simp only [cnt_log, hp.status]
-    show cnt p (post { σ with idleStatus := st } (.stop st)) + _ = _
-    rw [cnt_post hp]; simp; rfl
+  · simp [hp.reqStop, hp.reqDone]
+  · simp only [cnt_log, hp.status, hp.reqDone]
+    show cnt p (post { σ.log .reqStop with idleStatus := st } (.stop st)) + _ + _ = _
+    rw [cnt_post hp]
+    show cnt p (σ.log .reqStop) + _ + _ = _
+    simp [hp.reqStop]
 
 theorem cnt_request (hp : OnlyCalls p w) (cfg : Cfg) (σ : SM) (r : Req) : cnt p (request cfg σ r) = cnt p σ := by
   unfold request
